@@ -6,6 +6,9 @@ RULE = ("TLC explores, for every shape in the bound, every order of one-axis rem
         "spectrum (linear forms over the input cells); every path prefix is replayed on Spectrum::marginalize one "
         "axis at a time and jointly in the named order, and through `sfs view -m/-M` (text and npy input), on integer "
         "and real inputs. Non-trivial: more than one cell; distinct = (shape, ordered removal sequence).")
+RULE += (" SpectrumLarge.tla: the same operator on concrete patterned spectra of 66049-90000 cells (4 shapes, every proper "
+         "subset of removed axes / 5 shapes for folding), expected entries computed exactly by TLC, replayed on the library "
+         "(axes ascending and descending) and on the binary (-m and the complementary -M; three fills).")
 ASSUME = ["symbolic cells are evaluated in f64 by the harness: exact for integer inputs, 1e-12 relative for reals",
           "bounds per tlc_runs[].cfg"]
 
@@ -14,5 +17,8 @@ def run(tier):
     stages = [("MCMarginalize", "MCMarginalize_quick.cfg", "marginalize")] if tier == "quick" else [
         ("MCMarginalize", "MCMarginalize_t1.cfg", "marginalize"),
         ("MCMarginalize", "MCMarginalize_t2.cfg", "marginalize")]
+    # concrete spectra with more than 2^16 cells: a blocked / reordered / vectorised path above some size must compute the
+    # same function (SpectrumLarge.tla; expected entries are integers computed by TLC from the declarative definitions)
+    stages = stages + [("MCSpectrumLarge", "MCSpectrumLarge_marg.cfg", "large", {"workers": 4})]
     return standard("C04", tier, "model_checking", RULE, ASSUME, stages,
                     sabotage=[("MCMarginalize", "MCMarginalize_abNoShift.cfg", ["AsCodedAgrees", "ProbeSound"])])
